@@ -22,6 +22,14 @@
 (*                      also   : a nested attribute; a nested uleb value is  *)
 (*                               followed by the NUL that ends the enclosing *)
 (*                               NTBS (Tag_also_compatible_with)             *)
+(* The payload of Tag_also_compatible_with is decoded ACCORDING TO THE       *)
+(* NESTED TAG'S KIND (ABI addenda 3.3.7.3: a ULEB128-encoded tag followed by *)
+(* a ULEB128 or NTBS value depending on that tag, then the terminator):      *)
+(* the nested value is delimited by its own encoding, not by a search for   *)
+(* the first zero byte, so a nested integer value 0 (Tag_CPU_arch = Pre-v4,  *)
+(* bytes 65 6 0 0) or a non-minimal one ending in a zero group (0x81 0x00)   *)
+(* is an ordinary letter of the alphabet and the attribute that follows     *)
+(* starts right after the terminator (AlsoTerminated, EveryAttributeOnce).   *)
 (* Both lengths count from the first byte of their own record (the length   *)
 (* field / the scope tag) to the first byte of the next record.             *)
 (*                                                                         *)
@@ -38,8 +46,7 @@
 (*       (Dec(Enc(obj)) = obj, non-minimal LEB128 groups included).         *)
 (*                                                                         *)
 (* Not asserted (the standards do not fix them): unknown tags (the property *)
-(* quantifies over the two tag tables only); a nested uleb value whose      *)
-(* encoding contains a zero byte (clashes with the NTBS wrapper); the       *)
+(* quantifies over the two tag tables only); the                            *)
 (* content of vendor-private subsections (all subsections generated here    *)
 (* carry public-format content); how the scope header is counted by         *)
 (* num_attributes (harness accepts n or n+1, consistently with .attributes).*)
@@ -119,7 +126,8 @@ WellFormedAttr(table, a) ==
   /\ a.kind = KindOf(table, a.tag)
   /\ a.tag \in (IF table = "arm" THEN ArmTagSet ELSE RvTagSet)
   /\ (a.kind = "also" => /\ a.sub[1].kind \in {"uleb", "ntbs"} /\ a.sub[1].kind = KindOf(table, a.sub[1].tag)
-                         /\ \A i \in 1..Len(a.sub[1].g) : a.sub[1].g[i] # 0 \/ i < Len(a.sub[1].g))
+                         /\ a.sub[1].tag \in ArmTagSet
+                         /\ \A i \in 1..Len(a.sub[1].s) : a.sub[1].s[i] # 0)
 WellFormed(table, o) ==
   /\ Len(o) >= 1
   /\ \A i \in 1..Len(o) :
@@ -269,13 +277,17 @@ EnvsAll == Envs \cup {[table |-> "riscv", cls |-> 32, le |-> TRUE], [table |-> "
 UVals == {<<0>>, <<1>>, <<127>>, <<0, 1>>, <<127, 127>>, <<0, 0, 1>>, <<127, 127, 127, 127, 15>>, <<0, 0, 0, 0, 16>>,
           <<1, 0>>, <<0, 0>>, <<127, 127, 127, 127, 127, 127, 127, 127, 127, 1>>}
 SVals(table) == {<<>>, <<97>>, IF table = "arm" THEN Arm7 ELSE Rv32i, Utf}
+\* nested (tag, value) pairs of Tag_also_compatible_with: integer-valued tags x {0, small, 1-group maximum, 2-group,
+\* non-minimal forms whose last byte is 0x00 (value 1 as 0x81 0x00, value 0 as 0x80 0x00)}, every NTBS-valued tag x strings
+NestedUlebTags == {6, 7, 10, 34, 68}
+NestedUVals == {<<0>>, <<1>>, <<14>>, <<127>>, <<2, 1>>, <<0, 1>>, <<1, 0>>, <<0, 0>>}
 Sentinel(table) == IF table = "arm" THEN AU(6, <<9>>) ELSE AU(4, <<16>>)
 SweepAttrs(table) ==
   IF table = "arm"
   THEN {AU(t, g) : t \in ArmUleb, g \in UVals} \cup {AS(t, s) : t \in ArmNtbs, s \in SVals(table)}
        \cup {AC(32, g, s) : g \in {<<0>>, <<1>>, <<0, 1>>, <<1, 0>>}, s \in {<<>>, Gnu}}
-       \cup {AN(65, AU(6, g)) : g \in {<<1>>, <<14>>, <<2, 1>>}} \cup {AN(65, AU(7, <<65>>))}
-       \cup {AN(65, AS(5, s)) : s \in {<<>>, <<97>>, Arm7}}
+       \cup {AN(65, AU(t, g)) : t \in NestedUlebTags, g \in NestedUVals} \cup {AN(65, AU(7, <<65>>))}
+       \cup {AN(65, AS(t, s)) : t \in ArmNtbs, s \in SVals(table)}
   ELSE {AU(t, g) : t \in RvUleb, g \in UVals} \cup {AS(5, s) : s \in SVals(table)}
 NumLists == {<<>>, <<<<1>>>>, <<<<127>>>>, <<<<0, 1>>>>, <<<<1>>, <<2>>, <<3>>>>, <<<<0, 0, 1>>, <<1>>>>,
              <<<<0, 0, 0, 0, 0, 1>>>>, <<<<1, 0>>, <<44, 2>>>>}
@@ -283,13 +295,14 @@ DefaultNums(scope) == IF scope = 1 THEN <<>> ELSE IF scope = 2 THEN <<<<1>>>> EL
 ListAlphabet(table) ==
   IF table = "arm"
   THEN {AU(6, <<10>>), AU(34, <<0, 1>>), AS(5, <<97>>), AS(67, <<>>), AC(32, <<1>>, Gnu), AN(65, AU(6, <<2>>)),
-        AN(65, AS(5, <<98>>)), AU(64, <<0>>)}
+        AN(65, AS(5, <<98>>)), AU(64, <<0>>), AN(65, AU(6, <<0>>))}
   ELSE {AU(4, <<16>>), AS(5, Rv32i), AU(6, <<1>>), AU(16, <<0, 1>>)}
 \* "shape": whole sub-subsections of different sizes
 ShapeVariant(table, v) ==
   CASE v = 1 -> SubSub(1, <<>>, <<>>)
     [] v = 2 -> SubSub(2, <<<<1>>>>, <<AS(5, <<97, 98>>)>>)
-    [] v = 3 -> SubSub(3, <<<<5>>, <<44, 2>>>>, IF table = "arm" THEN <<AC(32, <<1>>, Gnu), AN(65, AU(6, <<2>>))>>
+    [] v = 3 -> SubSub(3, <<<<5>>, <<44, 2>>>>, IF table = "arm" THEN <<AC(32, <<1>>, Gnu), AN(65, AU(6, <<0>>)), AN(65, AS(5, <<>>)),
+                                                                            AN(65, AU(6, <<2>>))>>
                                                  ELSE <<AU(4, <<16>>), AS(5, Rv32i), AU(6, <<1>>)>>)
     [] v = 4 -> SubSub(1, <<>>, <<Sentinel(table)>>)
 Light(s) == Len(s.subsubs) <= 2 /\ \A j \in 1..Len(s.subsubs) : s.subsubs[j].scope # 3
@@ -384,6 +397,18 @@ ExtentConsumed ==
                           /\ LET subs == Level(1, decl) IN
                              \A i \in 1..Len(subs) : subs[i][2] + subs[i][3] = (IF i < Len(subs) THEN subs[i + 1][2] ELSE End1))
 ReaderAgrees == phase = "done" => rd.out = obj
+\* Tag_also_compatible_with is an NTBS around the nested pair: its record ends with the terminating NUL, the nested pair
+\* fills exactly the bytes between the outer tag and that NUL (a nested NTBS value shares it), whatever the nested value is
+AllAttrs(o) == UNION {UNION {{o[i].subsubs[j].attrs[k] : k \in 1..Len(o[i].subsubs[j].attrs)} : j \in 1..Len(o[i].subsubs)} : i \in 1..Len(o)}
+AlsoTerminated ==
+  phase = "done" =>
+    \A a \in AllAttrs(obj) : a.kind = "also" =>
+       LET e == EncAttr(a)
+           t == Len(UlebOfNat(a.tag))
+           r == AttrAt(env.table, e, t)                                    \* the nested pair, decoded by its tag's kind
+       IN /\ e[Len(e)] = 0
+          /\ r.a = a.sub[1]
+          /\ t + r.used + (IF r.a.kind = "uleb" THEN 1 ELSE 0) = Len(e)
 Generated == phase \in {"walk", "done"} => WellFormed(env.table, obj) /\ bytes[1] = 65
 \* the two tables cover exactly the tags the standards' tables list (kinds partition each table)
 ASSUME /\ ArmTagSet = DOMAIN ArmNames /\ RvTagSet = DOMAIN RvNames
